@@ -198,6 +198,27 @@ func (s *scen) run() core.Result {
 	} else if cerr != nil {
 		r.Class = "rejected:" + errClass(cerr)
 	}
+	// the same options reached through SetOptions on a converter built with the complementary ones
+	{
+		c := s.copts
+		alt := conv.Options{EnableValueMapping: !c.EnableValueMapping, EnableThriftBase: !c.EnableThriftBase, String2Int64: !c.String2Int64, NoBase64Binary: !c.NoBase64Binary,
+			WriteOptionalField: !c.WriteOptionalField, WriteDefaultField: !c.WriteDefaultField, WriteRequireField: !c.WriteRequireField, DisallowUnknownField: !c.DisallowUnknownField}
+		cv2 := j2t.NewBinaryConv(alt)
+		cv2.SetOptions(s.copts)
+		var o2 []byte
+		var e2 error
+		pi2 := core.Catch(func() { o2, e2 = cv2.Do(ctx, desc, append([]byte{}, s.doc...)) })
+		r.Count("conversions", 1)
+		if pi2 != nil {
+			r.Class = "panic"
+			r.Add(fmt.Sprintf("j2t.SetOptions+Do|%s|panic@%s:%s", s.op, pi2.Site, core.PanicClass(pi2.Val)), "doc %s\npanic: %.300s", clip(s.doc, 300), pi2.Val)
+			return r
+		}
+		if (e2 == nil) != (cerr == nil) || (e2 == nil && !bytes.Equal(o2, out)) {
+			r.Class = "violation"
+			r.Add(fmt.Sprintf("j2t.SetOptions+Do|%s|differs-from-converter-built-with-the-options", s.op), "options %s\ndoc %s\nNewBinaryConv(opts): %s err=%v\nSetOptions(opts):    %s err=%v", s.optName, clip(s.doc, 400), cliphex(out, 200), cerr, cliphex(o2, 200), e2)
+		}
+	}
 	// DoInto under every capacity of the deviation range: same verdict, same bytes as Do.
 	for _, k := range s.ks {
 		// the buffer is the front of a larger arena whose rest is filled with 0xAA: nothing may be written
